@@ -224,3 +224,16 @@ Definition quiescent (s : st) : bool :=
 
 Definition stat_of (k : N) (s : st) : option wstat :=
   match getw k s with Some w => Some (w_stat w) | None => None end.
+
+(* the ids of the requests written along a history (every ESend that is carried out draws one
+   from the client's generator, also the requests nobody waits for: OnOpen's RegisterRM
+   re-announcements are ESend _ true — the id is consumed, nothing stays in the table) *)
+Fixpoint drawn (c : cfg) (s : st) (evs : list ev) : list Z :=
+  match evs with
+  | [] => []
+  | e :: r =>
+      (match e with
+       | ESend k _ => match getw k s with None => [id_of (ctr s + 1)] | Some _ => [] end
+       | _ => []
+       end) ++ drawn c (step c s e) r
+  end.
